@@ -134,6 +134,26 @@ def double_stop(nw=2):
     }}
 
 
+def ask_consumed():
+    """a returns an InputRequiredEvent that another step of the workflow accepts (an approval step): it is still
+    published to the stream exactly once."""
+    return {"timeout": None, "steps": {
+        "a": {"accepts": ["Start"], "nw": 1, "body": [G, {"op": "ret", "ty": "Ask"}]},
+        "h": {"accepts": ["Ask"], "nw": 1, "returns": ["Stop"], "body": [G, {"op": "none"}]},      # an audit step: the run stays live
+    }}
+
+
+def two_waits_one_step(timeout2=None):
+    """ONE invocation with two sequential wait_for_event calls (different waiter ids): the first, already satisfied wait
+    must stay satisfied while the step is suspended in the second."""
+    return {"timeout": None, "steps": {
+        "a": {"accepts": ["Start"], "nw": 1,
+              "body": [G, {"op": "wait", "ty": "Resp", "wid": "w1", "timeout": None, "wev": True},
+                       {"op": "wait", "ty": "Resp", "wid": "w2", "timeout": timeout2, "reqs": {"k": 1}, "wev": False,
+                        "on_timeout": "stop"}, {"op": "stop"}]},
+    }}
+
+
 def junk():
     return {"timeout": None, "steps": {
         "a": {"accepts": ["Start"], "nw": 1, "body": [G, {"op": "ret", "ty": "A"}]},
@@ -275,12 +295,16 @@ def family(name, quick=True):
             out.append(("collector(nw=%d,%s,%d,retry_after=%s)" % (nw, "".join(exp), arr, ra), collector(nw, exp, arr, ra), []))
         for (nw, exp, arr) in [(2, ("A", "B", "C"), 3), (2, ("A", "A", "B"), 3)] + ([] if quick else [(3, ("A", "B", "C"), 3), (3, ("A", "A", "B"), 6), (2, ("A", "B", "C"), 6)]):
             out.append(("collector_hold(nw=%d,%s,%d)" % (nw, "".join(exp), arr), collector(nw, exp, arr, False, hold=True), []))
+    elif name == "ask":
+        out.append(("ask", ask(), [("Resp", None)]))
+        out.append(("ask_consumed", ask_consumed(), []))
     elif name == "wait":
         out.append(("waiter(no timeout)", waiter(None), [("Resp", None), ("A", None)]))
         out.append(("waiter(timeout=5)", waiter(5), [("Resp", None)]))
         out.append(("waiter(reqs k=1)", waiter(None, {"k": 1}), [("Resp", None), ("Resp1", None)]))
         out.append(("waiter2", waiter2(7), [("Resp", None), ("Resp1", None)]))
         out.append(("waiter_shared_id", waiter_shared_id(), [("Resp", None)]))
+        out.append(("two_waits_one_step", two_waits_one_step(), [("Resp", None), ("Resp1", None)]))
         if not quick:
             out.append(("waiter(timeout=5,raise)", waiter(5, on_timeout="raise"), [("Resp", None)]))
             out.append(("waiter(nw=2)", waiter(3, nw=2), [("Resp", None)]))
